@@ -158,7 +158,7 @@ func (la *linAnalysis) recvFieldHandle(v ssa.Value) *fakeHandle {
 	case *ssa.FieldAddr:
 		fa = x
 	}
-	if fa == nil || len(la.curFn.Params) == 0 || fa.X != ssa.Value(la.curFn.Params[0]) {
+	if fa == nil || !isReceiverValue(la.curFn, fa.X) {
 		return nil
 	}
 	f := fieldOf(fa)
@@ -170,7 +170,7 @@ func (la *linAnalysis) isReceiver(v ssa.Value) bool {
 	if la.curFn == nil || (la.curFields == nil && la.curSelf == nil) || len(la.curFn.Params) == 0 {
 		return false
 	}
-	return stripConv(v) == ssa.Value(la.curFn.Params[0])
+	return isReceiverValue(la.curFn, stripConv(v))
 }
 
 func newLinear(p *Program, spec *LinearSpec) *linAnalysis {
@@ -796,7 +796,7 @@ func (la *linAnalysis) call(fn *ssa.Function, res *linFuncResult, env linEnv, ca
 		}
 	}
 	if callee := cc.StaticCallee(); callee != nil && callee != fn && (la.curFields != nil || la.curSelf != nil) && callee.Signature.Recv() != nil &&
-		len(cc.Args) > 0 && len(la.curFn.Params) > 0 && cc.Args[0] == ssa.Value(la.curFn.Params[0]) && callee.Blocks != nil {
+		len(cc.Args) > 0 && isReceiverValue(la.curFn, cc.Args[0]) && callee.Blocks != nil {
 		myFields, mySelf := la.curFields, la.curSelf
 		cr := la.analyze(callee)
 		for f, must := range cr.fieldMust {
@@ -809,7 +809,7 @@ func (la *linAnalysis) call(fn *ssa.Function, res *linFuncResult, env linEnv, ca
 		}
 	}
 	if callee := cc.StaticCallee(); callee != nil && la.curSelf != nil && la.spec.SelfConsumer != nil && len(cc.Args) > 0 &&
-		cc.Args[0] == ssa.Value(la.curFn.Params[0]) && la.spec.SelfConsumer(callee) {
+		isReceiverValue(la.curFn, cc.Args[0]) && la.spec.SelfConsumer(callee) {
 		consume(env, la.curSelf, pos, "consumed by "+callee.Name()+"()")
 	}
 	sig := cc.Signature()
